@@ -22,6 +22,7 @@ CONSTANTS Names,        \* path component alphabet
           Tag,          \* scenario tag carried into the trace
           SoftTargets,  \* candidate targets of soft links
           HardTargets,  \* candidate targets of hard links
+          LinkCounts,   \* sizes of the link sets given to a group that is created with links
           SureCases,    \* mark the emitted cases: every call valid by the model must succeed
           OnlyLastMayFail \* prune histories in which a call that changed nothing is followed by more calls
 
@@ -75,6 +76,19 @@ HLink(pc, tc) ==
      THEN /\ AddLink(pc, Resolve(tc)) /\ touched' = {ParentOf(pc), Resolve(tc)}   \* target: reference count
           /\ UNCHANGED <<handles, fclosed>>
      ELSE NoChange /\ UNCHANGED handles /\ touched' = {}
+
+\* a group created together with n hard links l1..ln, all to the object that tc names (CreateGroupWithLinks:
+\* up to 8 links the group is a symbol table, above that it uses dense link storage).  All or nothing.
+LinkNames == <<"l1", "l2", "l3", "l4", "l5", "l6", "l7", "l8", "l9", "l10", "l11", "l12">>
+MkGroupL(pc, n, tc) ==
+  /\ Can("mkgroupl") /\ Log([op |-> "mkgroupl", pc |-> pc, nlinks |-> n, tc |-> tc])
+  /\ \/ /\ ~fclosed /\ CreateDefect(pc) = "" /\ nid <= MaxObjs /\ (n = 0 \/ Resolve(tc) # -1)
+        /\ AddObjL(pc, [i \in {LinkNames[k] : k \in 1..n} |-> Resolve(tc)])
+        /\ touched' = {nid, ParentOf(pc)} \cup (IF n = 0 THEN {} ELSE {Resolve(tc)})
+        /\ UNCHANGED <<handles, fclosed>>
+     \* rejected: invalid request - or 1..8 links, which the implementation may refuse as not supported (all or nothing either way)
+     \/ /\ fclosed \/ CreateDefect(pc) # "" \/ (n > 0 /\ Resolve(tc) = -1) \/ n \in 1..8
+        /\ NoChange /\ UNCHANGED handles /\ touched' = {}
 
 -----------------------------------------------------------------------------
 (* calls on an existing object through its handle *)
@@ -142,6 +156,7 @@ LStep ==
   \/ \E pc \in Paths, s \in Shapes : MkDs(pc, s)
   \/ \E pc \in Paths, tc \in HardTargets : HLink(pc, tc)
   \/ \E pc \in Paths, tc \in SoftTargets : SLink(pc, tc)
+  \/ \E pc \in Paths, n \in LinkCounts, tc \in HardTargets : MkGroupL(pc, n, tc)
   \/ \E pc \in Paths, dc \in DataClasses : Write(pc, dc)
   \/ \E pc \in Paths, w \in {"short", "long", "wrongtype"} : BadWrite(pc, w)
   \/ \E pc \in Paths, n \in AttrNames, v \in AttrVals : Attr(pc, n, v)
